@@ -1,7 +1,111 @@
 import Got.Model.Ants
-import Got.Lemmas.Ants
-/- property theorems of C08 (only theorems + non-vacuity examples live here) -/
+import Got.Lemmas.AntsTime
+/-
+C08 — ants: at most `size` handlers run at once and timeouts bound the wait; busy only if the queue was full.
+Model: Got.Model.Ants. `State.running` is a ghost counter incremented when a handler is entered (wStart) and
+decremented when it returns (wEnd) — exactly the counter the harness's handlers keep; `maxRunning` is its
+high-water mark. Handlers are entered only by closures occupying one of the N inner-worker slots (tie to the source:
+srcfacts tables "call sites of handler" = {closure in runTaskOnce}, "go statements in package ants" = {2 in NewPool},
+checked by checklib/c08.py).
+-/
 open Got.Model.Ants
+
+/-- in every reachable state at most N handler calls are in progress, including handlers of attempts that already timed
+    out; the counter equals the number of inner-worker slots that are inside a handler. -/
+theorem C08_max_concurrency (c : Cfg) (hc : c.old = false) (s : State) (hr : Reachable c s) :
+    s.running ≤ c.N ∧ s.maxRunning ≤ c.N ∧ s.running = cnt (inH s) c.N := by
+  have hi := slotInv_reachable hc hr
+  obtain ⟨acts, ha⟩ := hr
+  exact ⟨by rw [hi.run]; exact cnt_le _ _, max_run hc inv_init (slotInv_init c) (Nat.zero_le _) ha, hi.run⟩
+
+/-- a task enters the discard path only by a busy test that read `len(taskChan) = cap(taskChan) = N` with the
+    discardOnBusy option set, and becomes `discarded` only through that path (old and new code alike). -/
+theorem C08_busy_only_if_full (c : Cfg) (s s2 : State) (act : Act) (k : Nat) (h : step c s act = some s2) :
+    ((s.task k).pc ≠ .discardCb → (s2.task k).pc = .discardCb →
+        act = .busyTest k ∧ s.taskQ.length = c.N ∧ (s.task k).discard = true) ∧
+    ((s.task k).pc ≠ .discarded → (s2.task k).pc = .discarded → act = .discardCb k ∧ (s.task k).pc = .discardCb) :=
+  discard_origin k h
+
+/-! non-vacuity: two handlers in progress on a pool of size 2, and a discard on a full queue of size 1 -/
+example : ∃ s, Reachable { N := 2 } s ∧ s.running = 2 := by
+  let acts : List Act :=
+    [.send 0 { timeout := 1000, retry := 1, discard := true, hasCb := false }, .busyTest 0, .enq 0, .take 0, .loopTest 0,
+     .sendCl 0, .wTake 0 0 0, .wStart 0 0 true,
+     .send 1 { timeout := 1000, retry := 1, discard := true, hasCb := false }, .busyTest 1, .enq 1, .take 1, .loopTest 1,
+     .sendCl 1, .wTake 1 0 1, .wStart 1 0 true]
+  exact ⟨(run { N := 2 } init acts).getD init, ⟨acts, run_eq_some_getD (by decide)⟩, by decide⟩
+
+example : ∃ s s2, step { N := 1 } s (.busyTest 2) = some s2 ∧ (s2.task 2).pc = .discardCb ∧ s.taskQ.length = 1 := by
+  let acts : List Act :=
+    [.send 0 { timeout := 1000, retry := 1, discard := true, hasCb := false }, .busyTest 0, .enq 0, .take 0,
+     .send 1 { timeout := 1000, retry := 1, discard := true, hasCb := false }, .busyTest 1, .enq 1,
+     .send 2 { timeout := 1000, retry := 1, discard := true, hasCb := false }]
+  refine ⟨(run { N := 1 } init acts).getD init, (step { N := 1 } ((run { N := 1 } init acts).getD init) (.busyTest 2)).getD init,
+    ?_, by decide, by decide⟩
+  have : (step { N := 1 } ((run { N := 1 } init acts).getD init) (.busyTest 2)).isSome = true := by decide
+  cases hs : step { N := 1 } ((run { N := 1 } init acts).getD init) (.busyTest 2) with
+  | none => simp [hs] at this
+  | some x => simp
+
+/-
+Timing clause. `runMP c k` = executions under maximal progress (the clock moves only when no goroutine can take a
+step and no cancellation-honouring handler is overdue: `quiescent`) in which, in addition, the clock never moves while
+the dispatcher of task k is blocked in `sendInnerCallback` (pc = sendCl).
+
+FULL-STRENGTH statement as planned in DESIGN (NOT proved in this generality):
+    if every handler in the execution honours cancellation (returns no later than the instant its ctx is done), then
+    for every task k:  doneAt k ≤ pickAt k + R k * T k.
+What is missing: the lemma "all handlers honour cancellation ⇒ no closure-send ever waits across a clock step", a
+pigeonhole argument over the N dispatchers and the N inner-worker slots (in a quiescent state every occupied slot runs a
+live attempt of a distinct dispatching task, so a dispatcher that wants to send finds a free slot). The theorem below
+assumes its conclusion for task k as the hypothesis built into `runMP`; everything else (timers, select, the decided
+flag, waiting for doneChan, the retry loop) is proved. Without any hypothesis the bound is false: C08_bound_full_false.
+-/
+/-- under maximal progress, if the closure-send of task k never waits across a clock step, then task k is done no
+    later than R·T after a dispatcher picked it, whatever its own and all other handlers do (they may ignore ctx);
+    while it is being dispatched the clock never exceeds that bound either. -/
+theorem C08_bound_partial (c : Cfg) (hc : c.old = false) (k : Nat) (acts : List Act) (s : State)
+    (h : runMP c k init acts = some s) :
+    ((s.task k).pc = .done → (s.task k).doneAt ≤ (s.task k).pickAt + (s.task k).R * (s.task k).T) ∧
+    ((s.task k).pc.dispatching = true → s.now ≤ (s.task k).pickAt + (s.task k).R * (s.task k).T) := by
+  obtain ⟨hinv, _, tk⟩ := time_runMP hc k inv_init supp_init (timeOK_default _) h
+  have ok := hinv k
+  have hmul : (s.task k).att * (s.task k).T ≤ (s.task k).R * (s.task k).T := Nat.mul_le_mul_right _ ok.att_le
+  constructor
+  · intro hd; have := tk.done hd; omega
+  · intro hd
+    by_cases hin : (s.task k).pc.inAttempt = true
+    · have hatt : 1 ≤ (s.task k).att :=
+        ok.att_pos (by cases hp : (s.task k).pc <;> simp_all [TPc.inAttempt, TPc.pre])
+          (by intro hp; simp [hp, TPc.inAttempt] at hin)
+      have h1 := tk.inAtt hin
+      have h2 := tk.dlc hatt
+      omega
+    · have : (s.task k).pc = .loopTest ∨ (s.task k).pc = .onError ∨ (s.task k).pc = .wgDone := by
+        cases hp : (s.task k).pc <;> simp_all [TPc.inAttempt, TPc.dispatching]
+      have := tk.loop this
+      omega
+
+/-- executions under maximal progress are executions of the model -/
+theorem C08_runMP_is_run (c : Cfg) (k : Nat) (acts : List Act) (s : State) (h : runMP c k init acts = some s) :
+    Reachable c s := ⟨acts, runMP_run h⟩
+
+/-! non-vacuity of C08_bound_partial: a maximal-progress run in which task 0 times out once, then succeeds -/
+def c08DemoActs : List Act :=
+  [.send 0 { timeout := 1000, retry := 2, discard := true, hasCb := true }, .busyTest 0, .enq 0, .take 0,
+   .loopTest 0, .sendCl 0, .wTake 0 0 0, .wStart 0 0 true, .hook3 0,
+   .advance 1000, .fire 0 0, .selCtx 0, .hook2 0, .decide 0, .writeDE 0, .cancel 0, .errTest 0,
+   .wEnd 0 0 0 (.h 999), .wCheck 0 0, .wClose 0 0,
+   .loopTest 0, .sendCl 0, .wTake 0 1 0, .wStart 0 1 true, .hook3 0, .advance 1500, .wEnd 0 1 8 .nil, .wCheck 0 1,
+   .hook1 0 1, .wCas 0 1, .wWrite 0 1, .wClose 0 1, .selDone 0, .decide 0, .waitDone 0, .cancel 0, .errTest 0, .wgDone 0]
+
+example : ∃ s, runMP { N := 1 } 0 init c08DemoActs = some s ∧ (s.task 0).pc = .done ∧ (s.task 0).doneAt = 1500 ∧
+    (s.task 0).pickAt = 0 ∧ (s.task 0).R * (s.task 0).T = 2000 := by
+  have h : (runMP { N := 1 } 0 init c08DemoActs).isSome = true := by decide
+  refine ⟨(runMP { N := 1 } 0 init c08DemoActs).getD init, ?_, by decide, by decide, by decide, by decide⟩
+  cases hr : runMP { N := 1 } 0 init c08DemoActs with
+  | none => simp [hr] at h
+  | some x => simp
 
 def sec : Nat := 1000000000
 
@@ -33,6 +137,16 @@ Full-strength statement of the property's timing clause (FALSE, see below):
 /-- the full-strength R·T bound is false: B's own handlers honour ctx, B is picked at 1 s, R·T = 3 s, done at 101 s. -/
 theorem C08_bound_full_false :
     ∃ s, run { N := 1 } init c08ClogActs = some s ∧
+      -- the run respects maximal progress (the clock guard is evaluated for an unused task id, i.e. without the
+      -- extra no-stall condition, which this run violates for task 1 at the clock steps to 3 s and 100 s)
+      runMP { N := 1 } 99 init c08ClogActs = some s ∧
       (s.task 1).pc = .done ∧ (s.task 1).pickAt = sec ∧ (s.task 1).R * (s.task 1).T = 3 * sec ∧
       (s.task 1).doneAt = 101 * sec ∧ ¬ (s.task 1).doneAt ≤ (s.task 1).pickAt + (s.task 1).R * (s.task 1).T := by
-  refine ⟨(run { N := 1 } init c08ClogActs).getD init, run_eq_some_getD (by decide), ?_, ?_, ?_, ?_, ?_⟩ <;> decide
+  have hmp : runMP { N := 1 } 99 init c08ClogActs = run { N := 1 } init c08ClogActs := by
+    have h1 : (runMP { N := 1 } 99 init c08ClogActs).isSome = true := by decide
+    cases hr : runMP { N := 1 } 99 init c08ClogActs with
+    | none => simp [hr] at h1
+    | some x => exact (runMP_run hr).symm
+  refine ⟨(run { N := 1 } init c08ClogActs).getD init, run_eq_some_getD (by decide), ?_, ?_, ?_, ?_, ?_, ?_⟩
+  · rw [hmp]; exact run_eq_some_getD (by decide)
+  all_goals decide
